@@ -238,6 +238,8 @@ def run_harness(batch: Tuple[str, ...], nworkers: int, prefix: List[int], fine: 
         # (the predicate is evaluated by the scheduler's controller thread: the worker's own stop event is captured here, in the worker)
         wk.time = types.SimpleNamespace(sleep=lambda dt: (lambda st: S().block_until(lambda: tr.has("jobs.*.cfg") or st.peek(), "worker.sleep", kind="waiting"))(getattr(tl, "stop", stop)))
         futures: List[Tuple[str, Future, Any]] = []
+        if hasattr(policy, "bind"):
+            policy.bind(futures=futures, orch=orch, tr=tr)
         nodes = {name: job_nodes(name) for name in set(batch)}
         counter = iter(range(1, 1000))
         qo.uuid = types.SimpleNamespace(uuid4=lambda: f"job-{next(counter):04d}")  # own the job-id randomness
@@ -433,12 +435,35 @@ def plans(tier: str):
             (("K3", "K4"), 2, 1, "ctxproc"), (("K1", "K2"), 2, 2, "pair"), (("K1", "K1", "K2"), 3, 1, "pair"), (("K3", "K4"), 2, 3, "pair"), (("K2", "K1"), 2, 1, False), (("J1", "J2", "FAIL"), 2, 1, "retire"), (("J1", "J2", "J3", "FAIL"), 3, 0, "retire")]
 
 
+class PileUp:
+    """Deterministic schedule for large batches: first the client and the master run alone until every job is enqueued AND published
+    (workers starved), then the master is starved: the workers process everything, so all completions are waiting when the master
+    next looks.  Bound to the harness objects by run_harness (policy.bind)."""
+
+    def __init__(self, njobs: int):
+        self.njobs = njobs
+        self.env: Dict[str, Any] = {}
+
+    def bind(self, **env):
+        self.env = env
+
+    def __call__(self, enabled: List[int], running_enabled: bool, i: int) -> int:
+        e = self.env
+        published_all = len(e["futures"]) == self.njobs and not e["orch"].job_queue._d
+        victims = {1} if published_all else {t for t in enabled if t >= 2}
+        for k, t in enumerate(enabled):
+            if t not in victims:
+                return k
+        return 0
+
+
 def _rr_worker(chunk):
     out = []
     for batch, nworkers, quantum, rot in chunk:
         for n in set(batch):
             direct(n)
-        x = run_harness(batch, nworkers, [], False, sched.round_robin(quantum, rot))
+        pol = (PileUp(len(batch)) if quantum == "pile-up" else sched.starve(int(quantum.split(":")[1]))) if isinstance(quantum, str) else sched.round_robin(quantum, rot)
+        x = run_harness(batch, nworkers, [], False, pol)
         bad = judge_factory(batch)(x)
         out.append((len(batch), nworkers, quantum, rot, len(x.points), bad))
     return out
@@ -456,6 +481,15 @@ def large_batches(tier: str):
                 for quantum in (1, 2, 5):
                     for rot in range(2 + nworkers):
                         jobs.append((batch, nworkers, quantum, rot))
+    # beyond the small scope: 12 (thorough: 12, 25, 40) jobs whose completions all pile up before the master looks (master starved), and
+    # whose configurations all pile up before any worker looks (workers starved)
+    for n in ([12] if tier == "quick" else [12, 25, 40]):
+        for fail_pos in (None, 8):
+            batch = tuple("FAIL" if i == fail_pos else names[i % 3] for i in range(n))
+            for nworkers in (1, 3):
+                jobs.append((batch, nworkers, "pile-up", 0))    # all completions waiting at once
+                jobs.append((batch, nworkers, "starve:1", 0))   # thread 1 = master
+                jobs.append((batch, nworkers, "starve:0", 0))   # thread 0 = client: every job is processed before the next is enqueued
     return jobs
 
 
